@@ -591,6 +591,24 @@ fn check_script(rep: &mut Report, script: &[String], property: Option<&str>, dir
                                 if got.as_ref().ok() != Some(&want) { rep.fail(if got.is_err() { "panic" } else { "oracle" }, "C11/search-differs", ctx.clone(), &format!("{:?}", want), &format!("{:?}", got)); break; }
                             }
                         }
+                        // lookups by temporary identifier, at store level and inside every dataset: the same answers
+                        {
+                            let lookups = |st: &AnnotationStore| -> Vec<String> {
+                                let mut v = vec![];
+                                for h in 0..(st.annotations_len() + 1).min(12) { v.push(format!("!A{} -> {:?}", h, st.annotation(format!("!A{}", h).as_str()).map(|a| a.handle().as_usize()))); }
+                                for h in 0..4 { v.push(format!("!R{} -> {:?}", h, st.resource(format!("!R{}", h).as_str()).map(|a| a.handle().as_usize()))); v.push(format!("!S{} -> {:?}", h, st.dataset(format!("!S{}", h).as_str()).map(|a| a.handle().as_usize()))); }
+                                for ds in st.datasets() {
+                                    for h in 0..6 {
+                                        v.push(format!("set {:?} !K{} -> {:?}", ds.id(), h, ds.key(format!("!K{}", h).as_str()).map(|k| k.handle().as_usize())));
+                                        v.push(format!("set {:?} !D{} -> {:?}", ds.id(), h, ds.annotationdata(format!("!D{}", h).as_str()).map(|d| d.handle().as_usize())));
+                                    }
+                                }
+                                v
+                            };
+                            let (l1, l2) = (guarded(std::panic::AssertUnwindSafe(|| lookups(store))), guarded(std::panic::AssertUnwindSafe(|| lookups(&st2))));
+                            if let (Ok(a), Ok(b)) = (&l1, &l2) { if a != b { let (x, y) = first_diff(a, b); rep.fail("oracle", "C11/lookup-by-temporary-id-differs", ctx.clone(), &x, &y); } }
+                            else if l2.is_err() { rep.fail("panic", "C11/lookup-by-temporary-id-differs", ctx.clone(), "answers", &format!("{:?}", l2.err())); }
+                        }
                         // the decoded store also BEHAVES like the encoded one on the next operations: with generated
                         // identifiers switched on, a new annotation without identifier (on a new resource, with new
                         // data without identifier) gets identifiers of the same shape, and lands at the same handles
